@@ -54,6 +54,20 @@ def clear_reply(stub: bytes):
     return bytes(b)
 
 
+def forged_reply(stub: bytes, auth_len: int, pad=0):
+    """a well-formed RESPONSE with a CLEARTEXT stub and a security trailer whose auth value is auth_len arbitrary octets"""
+    from dpapi_ng._rpc import _pdu as P
+    from dpapi_ng._rpc import _request as R
+
+    st = P.SecTrailer(type=P.SecurityProvider(10), level=P.AuthenticationLevel.RPC_C_AUTHN_LEVEL_PKT_PRIVACY, pad_length=pad,
+                      context_id=0, auth_value=bytes((7 * i + 1) % 256 for i in range(auth_len)))
+    hdr = P.PDUHeader(version=5, version_minor=0, packet_type=P.PacketType.RESPONSE, packet_flags=P.PacketFlags(3), data_rep=P.DataRep(),
+                      frag_len=0, auth_len=auth_len, call_id=1)
+    b = bytearray(R.Response(header=hdr, sec_trailer=st, alloc_hint=len(stub), context_id=0, cancel_count=0, stub_data=stub).pack())
+    b[8:10] = len(b).to_bytes(2, "little")
+    return bytes(b)
+
+
 def impl_seal(arg):
     from dpapi_ng._rpc import _client as C
 
@@ -124,6 +138,10 @@ def gen(ctx: Ctx) -> Cases:
             # security trailer removed: cleartext reply with an attacker-chosen stub
             cs.add([fl, 1, sign, 1, seq, clear_reply(b"EVIL" * 4)], stub)
             cs.add([fl, 1, sign, 1, seq, clear_reply(stub)], stub)
+            # forged replies: cleartext stub, a security trailer with an arbitrary "signature" of every plausible size
+            for al in (1, 2, 7, 8, 12, 15, 16, 17, 28, 32, 60):
+                cs.add([fl, 1, sign, 1, seq, forged_reply(b"EVIL" * 4, al)], stub)
+                cs.add([fl, 1, sign, 1, seq, forged_reply(stub, al, pad=len(stub) - n)], stub)
             # every single-bit flip
             step = 1 if (ctx.thorough or n <= 16) else 3
             for byte in range(0, len(wire), 1):
